@@ -232,7 +232,11 @@ package ech
 //@ pure keySetupOk(k Key, h *clientHello) bool = hsetupOk(be16(k.Config, 5), int(h.echExt.CipherSuite.KDF), int(h.echExt.CipherSuite.AEAD), hprivOf(be16(k.Config, 5), cid(k.PrivateKey)), cid(cat("tls ech\x00", k.Config)), cid(h.echExt.Enc))
 //@ pure keySetup(k Key, h *clientHello) int = hsetup(be16(k.Config, 5), int(h.echExt.CipherSuite.KDF), int(h.echExt.CipherSuite.AEAD), hprivOf(be16(k.Config, 5), cid(k.PrivateKey)), cid(cat("tls ech\x00", k.Config)), cid(h.echExt.Enc))
 // keyOpens: key k is a candidate whose context opens the payload of h under the associated data a.
-//@ pure keyOpens(k Key, h *clientHello, a []byte) bool = keyCand(k, h) && keySetupOk(k, h) && hopens(keySetup(k, h), 0, cid(a), cid(h.echExt.Payload))
+// (kOpens carries the definition as a function symbol over the values involved; keyOpens reads them from k and h)
+//@ purerec kSetup(cfg []byte, pk []byte, kdf int, aead int, enc int) int = hsetup(be16(cfg, 5), kdf, aead, hprivOf(be16(cfg, 5), cid(pk)), cid(cat("tls ech\x00", cfg)), enc)
+//@ purerec kOpens(cfg []byte, pk []byte, id int, kdf int, aead int, enc int, pay int, a int) bool = cfgCand(cfg, id, kdf, aead) &&
+//@     hsetupOk(be16(cfg, 5), kdf, aead, hprivOf(be16(cfg, 5), cid(pk)), cid(cat("tls ech\x00", cfg)), enc) && hopens(kSetup(cfg, pk, kdf, aead, enc), 0, a, pay)
+//@ pure keyOpens(k Key, h *clientHello, a []byte) bool = kOpens(k.Config, k.PrivateKey, int(h.echExt.ConfigID), int(h.echExt.CipherSuite.KDF), int(h.echExt.CipherSuite.AEAD), cid(h.echExt.Enc), cid(h.echExt.Payload), cid(a))
 // aadIs: a is the ClientHelloOuterAAD of the message m from which h was parsed: m without its 4-byte handshake header, payload bytes zeroed.
 //@ pure aadIs(a []byte, h *clientHello, m []byte) bool = len(a) == len(m) - 4 && forall(j, offset(a), offset(a) + len(a), int(mem(a, j)) == ite(payloadWin(h, m, j - offset(a) + 4), 0, int(m[j - offset(a) + 4])))
 
@@ -419,6 +423,10 @@ package ech
 //@   check[F:padding-zero] inner != nil ==> forall(j, offset(msg) + chExStart(msg) + chExLen(msg), offset(msg) + len(msg), mem(msg, j) == 0)
 //@   ensures[F:seq-first] inner != nil && !isRetry ==> hseq(c.hpkeCtx) == 1
 //@   ensures[F:seq-retry] isRetry ==> c.hpkeCtx == old(c.hpkeCtx) && (inner != nil ==> hseq(c.hpkeCtx) == 2) && 1 <= hseq(c.hpkeCtx) && hseq(c.hpkeCtx) <= 2
+//@   at "eoeSeen = true" assert[L:marker-here] firstFrom(rx2, 0xfd00, 0) == ri2 && len(newExt) == ri2 && ext == rx2[ri2]
+//@   at "for p < len(h.Extensions) &&" assert[L:type-read] int(extType) == be16(ext.Data, 1 + 2*(len(newExt) - entry(len(newExt))))
+//@   at "if p == len(h.Extensions)" assert[L:scan-result] p == firstFrom(h.Extensions, int(extType), ite(len(newExt) - entry(len(newExt)) <= 0, 0, splicePos(h.Extensions, ext.Data, len(newExt) - entry(len(newExt)) - 1) + 1))
+//@   at "newExt = append(newExt, h.Extensions[p])" assert[L:found-at] p < len(h.Extensions) && p == splicePos(h.Extensions, ext.Data, len(newExt) - entry(len(newExt)))
 //@   loop 1 "range c.keys"
 //@     invariant[no-ctx-yet] !isRetry ==> c.hpkeCtx == nil
 //@     invariant[ctx-kept] isRetry ==> c.hpkeCtx == old(c.hpkeCtx) && hseq(c.hpkeCtx) == 1
@@ -446,6 +454,7 @@ package ech
 //@     assumes !isRetry && h.tls13 && h.echExt != nil && len(c.keys) > 0 && len(h.echExt.Enc) > 0 && parsedFrom(h, m) && noSlack(m) && len(m) <= 65535 && echUnique(h) && aadIs(aadv, h, m)
 //@     assumes forall(i, 0, len(c.keys), keyCand(c.keys[i], h) ==> hprivOk(be16(c.keys[i].Config, 5), cid(c.keys[i].PrivateKey)), trig(c.keys[i]))
 //@     callsite "ctx.Open(" requires[F:aad-is-outer] bytesEq(arg0, aadv)
+//@     at "c.hpkeCtx = ctx" assert[F:opened-here] keyOpens(key, h, aadv) && hid(ctx) == keySetup(key, h) && key == c.keys[ri1]
 //@     ensures[F:nomatch-only-if-none-opens] err == errNoMatch ==> forall(i, 0, len(c.keys), !keyOpens(c.keys[i], h, aadv), trig(c.keys[i]))
 //@     ensures[F:first-opening-key] inner != nil ==> exists(i, 0, len(c.keys), keyOpens(c.keys[i], h, aadv) && hid(c.hpkeCtx) == keySetup(c.keys[i], h) && forall(u, 0, i, !keyOpens(c.keys[u], h, aadv), trig(c.keys[u])))
 //@     ensures[F:opening-key-never-falls-back] (inner == nil && (err == nil || err == errNoMatch)) ==> forall(i, 0, len(c.keys), !keyOpens(c.keys[i], h, aadv), trig(c.keys[i]))
